@@ -72,6 +72,10 @@ func baseConfig(s Spec, r *rand.Rand, o Opt) vnet.Config {
 		cfg.BaseHeight = 0
 	case 1:
 		cfg.BaseHeight = uint32(r.Intn(1 << 20))
+		if r.Intn(3) == 0 {
+			// heights around the 16-, 31- and 32-bit boundaries (the run stays below 2^32-1)
+			cfg.BaseHeight = []uint32{1<<16 - 2, 1<<31 - 2, 1<<32 - 40, 1<<24 - 1}[r.Intn(4)] - uint32(r.Intn(3))
+		}
 	default:
 		cfg.BaseHeight = uint32(1 + r.Intn(40))
 	}
